@@ -588,12 +588,7 @@ class C15(Prop):
         return tag
 
     def finding_of(self, case, obs):
-        # F-C15b: a sudo call that passes watchers=None explicitly
-        if case["kind"] != "ctx":
-            return None
-        for st in walk(case["prog"]):
-            if st[0] == "sudo" and "watchers" in stmt_kw(st) and stmt_kw(st)["watchers"] is None:
-                return "F-C15b"
+        # F-C15 / F-C15b are fixed in /repo (c2a3b37, 2644606): nothing is attributed any more
         return None
 
     def shrink_candidates(self, case):
